@@ -14,6 +14,7 @@ CONSTANTS
   MaxSt = 3
   MaxLd = 0
   MaxLen = 3
+  Template <- NoTemplate
   Q <- QAsIs
   Clauses <- AllClauses
   Probe = TRUE
